@@ -120,6 +120,9 @@ func verifOpenFile(p string, flag int, perm os.FileMode) (*verifFile, error) {
 }
 
 func (h *verifFile) Write(b []byte) (int, error) {
+	if h == nil {
+		return 0, fs.ErrInvalid // like a nil *os.File
+	}
 	if h.closed {
 		return 0, fs.ErrClosed
 	}
@@ -165,6 +168,9 @@ func verifWriteAt(data []byte, pos int64, b []byte) []byte {
 }
 
 func (h *verifFile) Read(b []byte) (int, error) {
+	if h == nil {
+		return 0, fs.ErrInvalid // like a nil *os.File
+	}
 	if h.closed {
 		return 0, fs.ErrClosed
 	}
@@ -180,6 +186,9 @@ func (h *verifFile) Read(b []byte) (int, error) {
 }
 
 func (h *verifFile) Seek(off int64, whence int) (int64, error) {
+	if h == nil {
+		return 0, fs.ErrInvalid // like a nil *os.File
+	}
 	if h.closed {
 		return 0, fs.ErrClosed
 	}
@@ -198,9 +207,17 @@ func (h *verifFile) Seek(off int64, whence int) (int64, error) {
 	return h.pos, nil
 }
 
-func (h *verifFile) Sync() error { return nil }
+func (h *verifFile) Sync() error {
+	if h == nil {
+		return fs.ErrInvalid
+	}
+	return nil
+}
 
 func (h *verifFile) Close() error {
+	if h == nil {
+		return fs.ErrInvalid
+	}
 	if h.closed {
 		return fs.ErrClosed
 	}
